@@ -20,11 +20,14 @@ import (
 
 	"github.com/dappledger/AnnChain/gemmill/archive"
 	"github.com/dappledger/AnnChain/gemmill/blockchain"
+	"github.com/dappledger/AnnChain/gemmill/consensus/pbft"
 	crypto "github.com/dappledger/AnnChain/gemmill/go-crypto"
 	"github.com/dappledger/AnnChain/gemmill/go-wire"
 	"github.com/dappledger/AnnChain/gemmill/mempool"
+	"github.com/dappledger/AnnChain/gemmill/modules/go-clist"
 	dbm "github.com/dappledger/AnnChain/gemmill/modules/go-db"
 	"github.com/dappledger/AnnChain/gemmill/p2p"
+	sm "github.com/dappledger/AnnChain/gemmill/state"
 	"github.com/dappledger/AnnChain/gemmill/types"
 
 	"verifharness/csim"
@@ -107,6 +110,7 @@ type bcEnv struct {
 	dir      string
 	sim      *csim.Sim
 	bcR      *blockchain.BlockchainReactor
+	store    *blockchain.BlockStore
 	peer     *p2p.Peer
 	stop     func()
 	executed []int64
@@ -149,6 +153,7 @@ func newBC() (*bcEnv, error) {
 	conf.Set("db_archive_dir", dir)
 	conf.Set("db_backend", "memdb")
 	store := blockchain.NewBlockStore(dbm.NewMemDB(), nil)
+	e.store = store
 	arch := archive.NewArchive("memdb", dir, 0) // threshold_blocks default
 	e.bcR = blockchain.NewBlockchainReactor(conf, 0, store, true, arch)
 	e.bcR.SetBlockVerifier(func(id types.BlockID, h int64, c *types.Commit) error {
@@ -273,6 +278,9 @@ func runBC(class, want string) (got, detail string, wedge error) {
 		disc, pval, _ = e.recv(blockchain.VerifBlockResponse(b))
 	case "response-duplicate", "response-two-different", "response-nonassigned-peer", "response-unrequested-height":
 		return runBCResponse(e, class)
+	case "commit-late-badsig", "commit-late-wrong-height", "commit-late-wrong-round", "commit-late-wrong-type", "commit-late-wrong-index",
+		"commit-late-wrong-address", "commit-late-duplicate", "commit-late-nil", "commit-late-other-block", "commit-late-empty-address":
+		return runBCCommit(e, class)
 	default:
 		// requested-*: the pool asked this peer for blocks 1 and 2
 		if err := e.announce(3); err != nil {
@@ -422,6 +430,144 @@ func runBCResponse(e *bcEnv, class string) (got, detail string, wedge error) {
 	}
 	return "Accept", fmt.Sprintf("executed %v", ex), nil
 }
+
+// runBCCommit: the assigned peer serves genuine blocks 1..3, except that the LastCommit of block 3 (the commit that
+// justifies block 2 and that blockExecuter stores as block 2's SEEN commit) has genuine precommits in the low slots -
+// already more than 2/3 of the power - and a malformed precommit in the last slot.  VerifyCommit is the only check fast
+// sync applies to it.  The behaviour is followed through what comes next in the node's life: when the pool is caught up
+// (SwitchToConsensus) and at every restart (NewConsensusState), reconstructLastCommit feeds EVERY stored precommit of the
+// last block's seen commit to VoteSet.AddVote and PanicCrisis-es on a refusal - on poolRoutine's goroutine / at start-up.
+// Oracle: for every height the sync executed, a consensus state built on the store at that height must come up.
+// Outcome: Accept = block 2 was executed with that commit, Drop = it was refused (peer dropped, block asked again).
+func runBCCommit(e *bcEnv, class string) (got, detail string, wedge error) {
+	if err := e.announce(3); err != nil {
+		return "setup-error", err.Error(), nil
+	}
+	b1, b2, b3 := cloneBlock(e.blocks[1]), cloneBlock(e.blocks[2]), cloneBlock(e.blocks[3])
+	lc := b3.LastCommit
+	n := len(lc.Precommits)
+	last := n - 1
+	// genuine precommits in every slot (a validator the reference run did not collect signs now, with its real key)
+	genuine := func(i int) *types.Vote {
+		v := &types.Vote{ValidatorAddress: e.sim.Addrs[i], ValidatorIndex: i, Height: 2, Round: lc.Round(), Type: types.VoteTypePrecommit, BlockID: lc.BlockID}
+		v.Signature = e.sim.Privs[i].Sign(types.SignBytes(csim.ChainID, v))
+		return v
+	}
+	for i := 0; i < n; i++ {
+		if lc.Precommits[i] == nil {
+			lc.Precommits[i] = genuine(i)
+		}
+	}
+	f := *lc.Precommits[last]
+	resign := func() { f.Signature = e.sim.Privs[last].Sign(types.SignBytes(csim.ChainID, &f)) }
+	switch class {
+	case "commit-late-badsig":
+		f.Signature = signature("bad", e.sim.Privs[last], nil)
+	case "commit-late-wrong-height":
+		f.Height = 7
+		resign()
+	case "commit-late-wrong-round":
+		f.Round = lc.Round() + 3
+		resign()
+	case "commit-late-wrong-type":
+		f.Type = types.VoteTypePrevote
+		resign()
+	case "commit-late-wrong-index":
+		f.ValidatorIndex = 0
+	case "commit-late-wrong-address":
+		f.ValidatorAddress = e.sim.Addrs[0]
+	case "commit-late-empty-address":
+		f.ValidatorAddress = nil
+	case "commit-late-duplicate":
+		f = *lc.Precommits[0] // validator 0's genuine vote a second time, in the last slot
+	case "commit-late-other-block":
+		f.BlockID = types.BlockID{Hash: bytes.Repeat([]byte{0xab}, 20), PartsHeader: types.PartSetHeader{Total: 1, Hash: bytes.Repeat([]byte{0xcd}, 20)}}
+		resign()
+	}
+	lc.Precommits[last] = &f
+	if class == "commit-late-nil" {
+		lc.Precommits[last] = nil
+	}
+	resp := func(b *types.Block) []byte { return wire.BinaryBytes(blockchain.VerifBlockResponse(b)) }
+	for _, b := range []*types.Block{b1, b2, b3} {
+		if d, p, _ := e.recvFrom(e.peer, resp(b)); d {
+			return "Disconnect", fmt.Sprint(p), nil
+		}
+		if e.hung {
+			return "Drop", "", fmt.Errorf("BlockchainReactor.Receive never returned")
+		}
+	}
+	// poolRoutine decides in its own goroutine: block 2 executed, or refused (RedoRequest removes the peer from the pool)
+	for k := 0; k < 150; k++ {
+		ex := e.executedHeights()
+		if len(ex) >= 2 {
+			break
+		}
+		if len(ex) >= 1 {
+			if _, known := e.bcR.VerifPool().VerifView(3).Peers[e.peer.Key]; !known {
+				break
+			}
+		}
+		time.Sleep(100 * time.Millisecond)
+	}
+	time.Sleep(150 * time.Millisecond)
+	ex := e.executedHeights()
+	if len(ex) == 0 {
+		return "Drop", "", fmt.Errorf("the genuine block 1 was not executed within 15 s")
+	}
+	// the node's next steps: switch to consensus now, or stop and start again at any height it has reached
+	for _, hgt := range ex {
+		var cs *pbft.ConsensusState
+		p, stk := mbt.Catch(func() { cs = e.consensusOn(hgt) })
+		if p != nil {
+			panic(fmt.Sprintf("fast sync accepted block %d with a seen commit whose last slot is malformed (%s); building the consensus state on it (SwitchToConsensus when the pool is caught up / NewConsensusState at every restart: reconstructLastCommit) dies: %v\n%s", hgt, class, p, stk))
+		}
+		if cs != nil {
+			cs.VerifCloseWAL()
+		}
+	}
+	if !guarded(5*time.Second, func() { e.bcR.VerifPool().GetStatus(); e.bcR.VerifPool().PeekTwoBlocks() }) {
+		e.hung = true
+		wedge = fmt.Errorf("the pool is blocked after the commit with a malformed last slot")
+	}
+	if len(ex) >= 2 {
+		return "Accept", fmt.Sprintf("executed %v", ex), wedge
+	}
+	return "Drop", fmt.Sprintf("executed %v", ex), wedge
+}
+
+// consensusOn builds the consensus state the node would run on the block store as it is, at height h: what
+// SwitchToConsensus / a restart do first (updateToState, reconstructLastCommit from the stored seen commit).
+func (e *bcEnv) consensusOn(h int64) *pbft.ConsensusState {
+	st := sm.MakeGenesisState(dbm.NewMemDB(), e.sim.Genesis)
+	st.LastBlockHeight = h
+	st.LastValidators = st.Validators.Copy()
+	if meta := e.store.LoadBlockMeta(h); meta != nil {
+		st.LastBlockID = types.BlockID{Hash: meta.Hash, PartsHeader: meta.PartsHeader}
+	}
+	conf := viper.New()
+	conf.Set("chain_id", csim.ChainID)
+	conf.Set("cs_wal_dir", fmt.Sprintf("%s/cs-wal-%d-%d", e.dir, h, time.Now().UnixNano()))
+	conf.Set("cs_wal_light", true)
+	for _, k := range []string{"timeout_propose", "timeout_prevote", "timeout_precommit", "timeout_commit"} {
+		conf.Set(k, 1000)
+		conf.Set(k+"_delta", 500)
+	}
+	return pbft.NewConsensusState(conf, st, e.store, &nullPool{})
+}
+
+type nullPool struct{ mtx sync.Mutex }
+
+func (p *nullPool) Lock()                                     { p.mtx.Lock() }
+func (p *nullPool) Unlock()                                   { p.mtx.Unlock() }
+func (p *nullPool) Reap(count int) []types.Tx                 { return nil }
+func (p *nullPool) ReceiveTx(tx types.Tx) error               { return nil }
+func (p *nullPool) Update(height int64, txs []types.Tx)       {}
+func (p *nullPool) Size() int                                 { return 0 }
+func (p *nullPool) TxsFrontWait() *clist.CElement             { return nil }
+func (p *nullPool) Flush()                                    {}
+func (p *nullPool) RegisterFilter(filter types.IFilter)       {}
+func (p *nullPool) GetPendingMaxNonce([]byte) (uint64, error) { return 0, nil }
 
 // ---------------------------------------------------------------------------------------------
 // mempool reactor with the real gemmill Mempool
